@@ -136,6 +136,15 @@ fn sibling_texts(salt: &str) -> Vec<String> {
             v.push(format!("{r} or {s}"));
         }
     }
+    // the bare roots and their negations (same root test, terminal children swapped)
+    v.push(format!("os_name == 'sib{salt}'"));
+    v.push(format!("os_name != 'sib{salt}'"));
+    v.push(format!("sys_platform in 'sib{salt} other'"));
+    v.push(format!("sys_platform not in 'sib{salt} other'"));
+    v.push(format!("'sib{salt}' in platform_machine"));
+    v.push(format!("'sib{salt}' not in platform_machine"));
+    v.push(format!("extra == 'aa{}'", salt.to_lowercase()));
+    v.push(format!("extra != 'aa{}'", salt.to_lowercase()));
     v
 }
 
@@ -243,6 +252,10 @@ pub fn run(out: &mut Out, tier: &str, seed: u64, prop: &str) {
                         let o = match a.cmp(b) { std::cmp::Ordering::Less => "lt", std::cmp::Ordering::Equal => "eq", std::cmp::Ordering::Greater => "gt" };
                         out.case(format!("cmp\tL {}\tL {}", dump(a), dump(b)), format!("{o} {}", (a == b) as u8));
                         out.stat("c16.sibling_pairs");
+                        let input = serde_json::json!({"a": texts[i], "b": texts[j]});
+                        if (a.cmp(b) == std::cmp::Ordering::Equal) != (a == b) { out.oracle_fail("C16", "cmp returns Equal for != markers (or not Equal for == markers)", input.clone()); }
+                        if a.cmp(b) != b.cmp(a).reverse() { out.oracle_fail("C16", "cmp is not antisymmetric", input.clone()); }
+                        if a == b && hash_of(a) != hash_of(b) { out.oracle_fail("C16", "equal markers hash differently", input.clone()); }
                     }
                 }
                 for r in 0..(if big { 6 } else { 2 }) { cross_process_order(out, "C16", &mut rng, &format!("Q{seed}r{r}")); }
